@@ -409,6 +409,11 @@ def r15_9(ctx):
     from .c06 import r06_8
 
     r06_8(ctx)  # every call / x++ in the text is an operation of its own: none is merged with a pending one that "looks the same"
+    from .c09 import constant_condition_selection
+    from .c17 import text_reaches_parser_unmodified
+
+    constant_condition_selection(ctx)  # the arm C evaluates is the arm that is kept (with its side effects)
+    text_reaches_parser_unmodified(ctx)
     # the arm a constant ?: condition does not select is rightly not evaluated (C11 6.5.15p4): its removal is no loss here
     r09_3(ctx, skip=("simplify_conditional_expr",))
 
